@@ -38,7 +38,7 @@ def driver(seed, count):
     warnings.simplefilter("ignore")
     rng = np.random.default_rng([seed, 909])
     for _ in range(count):
-        kind = ("tempo", "tempo", "mftempo", "pttempo", "pttempo", "gibbs")[int(rng.integers(0, 6))]
+        kind = ("tempo", "tempo", "mftempo", "pttempo", "pttempo", "gibbs", "tebd")[int(rng.integers(0, 7))]
         d = int(rng.choice([2, 2, 3]))
         vals = rng.choice([-1.0, -0.5, 0.0, 0.5, 1.0], size=d, replace=bool(rng.random() < 0.5))
         if len(set(vals)) == 1:
@@ -79,6 +79,34 @@ def driver(seed, count):
                 pt.compute(progress_type="silent")
                 if rng.random() < 0.5:
                     pt.get_process_tensor(progress_type="silent")
+            elif kind == "tebd":
+                nsite = int(rng.integers(2, 4))
+                nst = int(rng.integers(2, 5))
+                sz = np.diag([1.0, -1.0]).astype(complex)
+                sx = np.array([[0, 1], [1, 0]], dtype=complex)
+                tp = oqupy.TempoParameters(dt=dt, dkmax=int(rng.integers(1, 4)), epsrel=1e-4)
+                pts = []
+                for _s in range(nsite):
+                    if rng.random() < 0.6:
+                        pts.append(oqupy.pt_tempo_compute(oqupy.Bath(0.5 * sz, corr), 0.0, nst * dt, tp, progress_type="silent"))
+                    else:
+                        pts.append(None)
+                chain = oqupy.SystemChain([2] * nsite)
+                for _s in range(nsite):
+                    chain.add_site_hamiltonian(_s, 0.3 * sx)
+                for _s in range(nsite - 1):
+                    chain.add_nn_hamiltonian(_s, sz, sz)
+                ctl = None
+                if rng.random() < 0.5:
+                    ctl = oqupy.ChainControl([2] * nsite)
+                    ctl.add_single_site_control(np.kron(sx, sx.conj()), int(rng.integers(0, nsite)), int(rng.integers(0, nst)),
+                                                post=bool(rng.random() < 0.5))
+                r2 = np.array([[0.7, 0.1], [0.1, 0.3]], dtype=complex)
+                tebd = oqupy.PtTebd(oqupy.AugmentedMPS([r2] * nsite), chain, pts,
+                                    oqupy.PtTebdParameters(dt=dt, order=int(rng.choice([1, 2])), epsrel=eps),
+                                    dynamics_sites=[0], chain_control=ctl)
+                tebd.compute(nst // 2, progress_type="silent")
+                tebd.compute(nst, progress_type="silent")
             else:
                 g = oqupy.GibbsTempo(oqupy.System(np.diag(np.diag(h))), oqupy.Bath(op, oqupy.PowerLawSD(
                     alpha=0.1, zeta=1.0, cutoff=2.0, cutoff_type="exponential", temperature=float(rng.choice([0.5, 1.5])))),
@@ -167,8 +195,10 @@ def run(ctx):
         if summary["events"] != len(events):
             raise core.MachineryError("TLC consumed %s of %d events" % (summary["events"], len(events)))
         # binding self-test: corrupt one length, one bond list
-        for field in ("mps", "bonds"):
+        for field in ("mps", "bonds", "pt"):
             idx = next(i for i, e in enumerate(events) if e["ev"] == "step" and not e["raised"] and e["mps"] >= 3)
+            if field == "pt":
+                idx = next(i for i, e in enumerate(events) if e["ev"] == "tebd-op" and e["op"] == "pt" and max(e["pt"]) > 1)
             corrupt = os.path.join(tmp, "corrupt.ndjson")
             with open(corrupt, "w") as fo:
                 for i, e in enumerate(events):
@@ -176,6 +206,8 @@ def run(ctx):
                     if i == idx:
                         if field == "mps":
                             e2["mps"] += 1
+                        elif field == "pt":
+                            e2["pt"] = [x + 1 for x in e2["pt"]]
                         else:
                             e2["bonds"] = e2["bonds"][:-1]
                     fo.write(json.dumps(e2) + "\n")
@@ -189,7 +221,7 @@ def run(ctx):
         for oid, evs in by_oid.items():
             if oid is None:
                 continue
-            a = evs[0].get("alg")
+            a = evs[0].get("alg", "tebd" if evs[0]["ev"].startswith("tebd") else None)
             algs[a] = algs.get(a, 0) + 1
             ctx.case({"backend": a, "K": evs[0].get("K"), "N": evs[0].get("N"), "source": evs[0]["_src"], "events": len(evs)},
                      nontrivial=len(evs) > 2)
@@ -200,7 +232,7 @@ def run(ctx):
                 ctx.violation("X-NetShape:%s:%s" % (b["kind"], rule),
                               "event %d (%s): %s violates %s" % (b["line"], e["_src"], {k: v for k, v in e.items() if k != "_src"}, rule),
                               {"trace_events": evs})
-        for need in ("tempo", "pt", "gibbs"):
+        for need in ("tempo", "pt", "gibbs", "tebd"):
             if algs.get(need, 0) < 5:
                 raise core.MachineryError("fewer than 5 %s backends were traced" % need)
         ctx.traces += len(events)
